@@ -170,6 +170,7 @@ func genSeq(r *vgen.Rng) Case {
 			c = Case{Src: "erc20", Dst: "evm"}
 			cd, hr := erc20Tail(r)
 			c.Data, c.HR = hex.EncodeToString(cd), hex.EncodeToString(hr)
+			ignored(r, &c)
 		default:
 			c = fresh(r, rs.kind, dk)
 		}
